@@ -145,7 +145,8 @@ theorem wf_pAdd {st : LStmts} (ha : alignedL st = true) {d : LDb} (hwf : d.Wf) (
   | mk d' res =>
     cases res with
     | ok i =>
-      simp only [alignedL, Bool.and_eq_true] at ha
+      replace ha := alignedL_core ha
+      simp only [alignedLcore, Bool.and_eq_true] at ha
       obtain ⟨⟨⟨⟨⟨⟨⟨⟨⟨_, _⟩, hpins⟩, _⟩, _⟩, _⟩, _⟩, _⟩, _⟩, _⟩ := ha
       obtain ⟨ps, t, _, he, hi, hins, hd'⟩ := pAdd_ok hres
       subst hi hd'
@@ -206,7 +207,8 @@ theorem wf_pAdd {st : LStmts} (ha : alignedL st = true) {d : LDb} (hwf : d.Wf) (
 /-- Every result of `pUpdate` is the old state or the old state with a table whose ids are still bounded. -/
 theorem wf_pUpdate {st : LStmts} (ha : alignedL st = true) {d : LDb} (hwf : d.Wf) (r : Row PField) :
     (pUpdate st d r).1.Wf := by
-  simp only [alignedL, Bool.and_eq_true] at ha
+  replace ha := alignedL_core ha
+  simp only [alignedLcore, Bool.and_eq_true] at ha
   obtain ⟨⟨⟨⟨⟨⟨⟨⟨⟨_, _⟩, _⟩, hfull⟩, hsimple⟩, _⟩, _⟩, _⟩, _⟩, _⟩ := ha
   have hnidw : PField.id ∉ PField.writable := fun h => (PField.mem_writable.mp h) rfl
   have hnids : PField.id ∉ [PField.title, PField.is_persisted, PField.last_edit_time, PField.is_explicitly_exported] := by decide
